@@ -347,12 +347,12 @@ func c12RunSched(line string) string {
 	}
 	await := func(hint string, own int) string { // own: index of the status char of the op's own thread, -1 if none
 		if hint == "" {
-			time.Sleep(150 * time.Millisecond)
+			time.Sleep(60 * time.Millisecond)
 			return status()
 		}
 		patience := 1500 * time.Millisecond
 		if atomic.LoadInt32(&c12Deviations) >= 3 {
-			patience = 400 * time.Millisecond // the real code has left the expected path repeatedly: stop being patient
+			patience = 300 * time.Millisecond // the real code has left the expected path repeatedly: stop being patient
 		}
 		deadline := time.Now().Add(patience)
 		for {
